@@ -867,6 +867,234 @@ theorem rings_positions {α : Type} (rings : List (List α)) :
 
 example : decodeRings [3, 4] = [[0, 1, 2, FILL], [3, 4, 5, 6]] := by decide
 
+/-! ### face-vertex arrays -/
+
+theorem filter_range_nil (n : Nat) (P : Nat → Bool) (h : ∀ i, i < n → P i = false) :
+    (List.range n).filter P = [] := by
+  rw [List.filter_eq_nil_iff]
+  intro i hi
+  rw [h i (List.mem_range.mp hi)]; simp
+
+theorem filter_range_single (n i0 : Nat) (P : Nat → Bool) (h0 : i0 < n) (hP : P i0 = true)
+    (hu : ∀ i, i < n → P i = true → i = i0) : (List.range n).filter P = [i0] := by
+  induction n with
+  | zero => omega
+  | succ n ih =>
+    rw [List.range_succ, List.filter_append]
+    by_cases hn : i0 = n
+    · subst hn
+      rw [filter_range_nil i0 P (fun i hi => by
+        cases hpi : P i with
+        | false => rfl
+        | true => have := hu i (by omega) hpi; omega)]
+      simp [hP]
+    · have hPn : P n = false := by
+        cases hpn : P n with
+        | false => rfl
+        | true => have := hu n (by omega) hpn; omega
+      rw [ih (by omega) (fun i hi => hu i (by omega))]
+      simp [hPn]
+
+/-- deleting the only bad element: `np.delete(unique_verts, false_indices)` -/
+theorem filter_good_eraseIdx {α : Type} (bad : α → Bool) (l : List α) (i0 : Nat) (h0 : i0 < l.length)
+    (hb : bad l[i0] = true) (hu : ∀ i (hi : i < l.length), bad l[i] = true → i = i0) :
+    l.filter (fun k => !bad k) = l.eraseIdx i0 := by
+  induction l generalizing i0 with
+  | nil => simp at h0
+  | cons a l ih =>
+    cases i0 with
+    | zero =>
+      have ha : bad a = true := by simpa using hb
+      simp only [List.filter_cons, ha, Bool.not_true, Bool.false_eq_true, if_false, List.eraseIdx_cons_zero]
+      rw [List.filter_eq_self]
+      intro x hx
+      obtain ⟨i, hi, rfl⟩ := List.getElem_of_mem hx
+      cases hbx : bad l[i] with
+      | false => rfl
+      | true =>
+        have := hu (i + 1) (by simp; omega) (by simpa using hbx)
+        omega
+    | succ k =>
+      have ha : bad a = false := by
+        cases hba : bad a with
+        | false => rfl
+        | true => have := hu 0 (by simp) (by simpa using hba); omega
+      simp only [List.filter_cons, ha, Bool.not_false, if_true, List.eraseIdx_cons_succ]
+      congr 1
+      apply ih k (by simpa using h0) (by simpa using hb)
+      intro i hi hbi
+      have := hu (i + 1) (by simp; omega) (by simpa using hbi)
+      omega
+
+
+theorem dropIdx_eq (i0 : Nat) : dropIdx (Int.ofNat i0) (Int.ofNat i0) = FILL := by
+  unfold dropIdx; simp
+
+theorem dropIdx_gt (i0 j : Nat) (h : j > i0) :
+    dropIdx (Int.ofNat i0) (Int.ofNat j) = Int.ofNat (j - 1) := by
+  unfold dropIdx
+  have hF := FILL_neg
+  have h1 : ¬ (Int.ofNat j = Int.ofNat i0) := by simp only [Int.ofNat_eq_natCast]; omega
+  have h2 : Int.ofNat j > Int.ofNat i0 ∧ Int.ofNat j ≠ FILL := by
+    simp only [Int.ofNat_eq_natCast]; omega
+  rw [if_neg h1, if_pos h2]; simp only [Int.ofNat_eq_natCast]; omega
+
+theorem dropIdx_lt (i0 j : Nat) (h : j < i0) :
+    dropIdx (Int.ofNat i0) (Int.ofNat j) = Int.ofNat j := by
+  unfold dropIdx
+  have h1 : ¬ (Int.ofNat j = Int.ofNat i0) := by simp only [Int.ofNat_eq_natCast]; omega
+  have h2 : ¬ (Int.ofNat j > Int.ofNat i0 ∧ Int.ofNat j ≠ FILL) := by
+    simp only [Int.ofNat_eq_natCast]; omega
+  rw [if_neg h1, if_neg h2]
+
+/-- the padding vertex of a face-vertex array -/
+def K0 : Key := (FILL, FILL)
+
+theorem mem_encVertsRow (w : Nat) (f : List Key) (k : Key) (hk : k ∈ encVertsRow w f) :
+    k ∈ f ∨ (k = K0 ∧ f.length < w) := by
+  unfold encVertsRow at hk
+  rcases List.mem_append.mp hk with h | h
+  · exact Or.inl h
+  · have := List.mem_replicate.mp h
+    exact Or.inr ⟨this.2, by omega⟩
+
+/-- **face-vertex arrays**: with rows padded by the fill vertex, every decoded index looked up
+    in the decoded node list is the source vertex at that position, padding comes only at the
+    end and is the standard fill, the decoded nodes are distinct and none is the fill vertex. -/
+theorem vertices_positions (w : Nat) (faces : List (List Key))
+    (h : ∀ f ∈ faces, f.length ≤ w ∧ ∀ k ∈ f, isFillKey k = false) :
+    (vertsDecode (faces.map (encVertsRow w))).2.map
+        (·.map (getI? (vertsDecode (faces.map (encVertsRow w))).1))
+      = faces.map (fun f => f.map some ++ List.replicate (w - f.length) none)
+    ∧ (vertsDecode (faces.map (encVertsRow w))).1.Nodup
+    ∧ ∀ k ∈ (vertsDecode (faces.map (encVertsRow w))).1, isFillKey k = false := by
+  have hK0 : isFillKey K0 = true := by decide
+  -- notation
+  generalize hn0 : uniqPair (faces.map (encVertsRow w)).flatten = nodes0
+  have hN : nodes0.Nodup := by rw [← hn0]; exact nodup_uniqPair _
+  have hmem : ∀ k, k ∈ nodes0 ↔ ∃ f ∈ faces, k ∈ encVertsRow w f := by
+    intro k
+    rw [← hn0, mem_uniqPair, List.mem_flatten]
+    constructor
+    · rintro ⟨r, hr, hk⟩
+      rcases List.mem_map.mp hr with ⟨f, hf, rfl⟩
+      exact ⟨f, hf, hk⟩
+    · rintro ⟨f, hf, hk⟩
+      exact ⟨_, List.mem_map.mpr ⟨f, hf, rfl⟩, hk⟩
+  have hM : ∀ k ∈ nodes0, isFillKey k = false ∨ k = K0 := by
+    intro k hk
+    obtain ⟨f, hf, hkf⟩ := (hmem k).mp hk
+    rcases mem_encVertsRow w f k hkf with h1 | h1
+    · exact Or.inl ((h f hf).2 k h1)
+    · exact Or.inr h1.1
+  have hreal : ∀ f ∈ faces, ∀ k ∈ f, k ∈ nodes0 := by
+    intro f hf k hk
+    exact (hmem k).mpr ⟨f, hf, by unfold encVertsRow; exact List.mem_append_left _ hk⟩
+  have hdec : vertsDecode (faces.map (encVertsRow w))
+      = (nodes0.filter (fun k => !isFillKey k),
+         ((List.range nodes0.length).filter (fun i => isFillKey (nodes0.getD i (0, 0)))).foldl
+            (fun t idx => t.map (·.map (dropIdx (Int.ofNat idx))))
+            ((faces.map (encVertsRow w)).map (·.map (rank nodes0)))) := by
+    unfold vertsDecode; simp only [hn0]
+  rw [hdec]
+  simp only []
+  have hgetD : ∀ i (hi : i < nodes0.length), nodes0.getD i (0, 0) = nodes0[i] := by
+    intro i hi; simp [hi]
+  by_cases hK : K0 ∈ nodes0
+  · -- exactly one fill vertex, at index i0
+    have hi0 : nodes0.idxOf K0 < nodes0.length := List.idxOf_lt_length_iff.mpr hK
+    generalize hi0def : nodes0.idxOf K0 = i0 at hi0
+    have hat : nodes0[i0] = K0 := by subst hi0def; exact List.getElem_idxOf _
+    have huniq : ∀ i (hi : i < nodes0.length), isFillKey nodes0[i] = true → i = i0 := by
+      intro i hi hb
+      have : nodes0[i] = K0 := by
+        rcases hM _ (List.getElem_mem hi) with h1 | h1
+        · rw [h1] at hb; cases hb
+        · exact h1
+      rw [← hN.idxOf_getElem i hi, this, hi0def]
+    have hfalse : (List.range nodes0.length).filter (fun i => isFillKey (nodes0.getD i (0, 0))) = [i0] := by
+      apply filter_range_single _ _ _ hi0
+      · simp only [hgetD i0 hi0, hat, hK0]
+      · intro i hi hb
+        rw [hgetD i hi] at hb
+        exact huniq i hi hb
+    have hnodes : nodes0.filter (fun k => !isFillKey k) = nodes0.eraseIdx i0 :=
+      filter_good_eraseIdx isFillKey nodes0 i0 hi0 (by rw [hat]; exact hK0) huniq
+    rw [hfalse, hnodes]
+    simp only [List.foldl_cons, List.foldl_nil]
+    refine ⟨?_, ?_, ?_⟩
+    · rw [List.map_map, List.map_map, List.map_map]
+      apply List.map_congr_left
+      intro f hf
+      simp only [Function.comp, List.map_map]
+      unfold encVertsRow
+      rw [List.map_append, List.map_replicate]
+      congr 1
+      · apply List.map_congr_left
+        intro k hk
+        have hkn := hreal f hf k hk
+        have hj : nodes0.idxOf k < nodes0.length := List.idxOf_lt_length_iff.mpr hkn
+        have hjk : nodes0[nodes0.idxOf k] = k := List.getElem_idxOf _
+        have hne : nodes0.idxOf k ≠ i0 := by
+          intro he
+          have : k = K0 := by rw [← hjk, ← hat]; simp [he]
+          have hg := (h f hf).2 k hk
+          rw [this, hK0] at hg; cases hg
+        have hr : rank nodes0 k = Int.ofNat (nodes0.idxOf k) := rfl
+        simp only [Function.comp, hr]
+        by_cases hgt : nodes0.idxOf k > i0
+        · rw [dropIdx_gt _ _ hgt, getI?_ofNat, List.getElem?_eraseIdx, if_neg (by omega)]
+          have : nodes0.idxOf k - 1 + 1 = nodes0.idxOf k := by omega
+          rw [this, List.getElem?_eq_getElem hj, hjk]
+        · rw [dropIdx_lt _ _ (by omega), getI?_ofNat, List.getElem?_eraseIdx, if_pos (by omega),
+            List.getElem?_eq_getElem hj, hjk]
+      · congr 1
+        have : rank nodes0 (FILL, FILL) = Int.ofNat i0 := by
+          unfold rank; rw [← hi0def]; rfl
+        simp only [Function.comp, this, dropIdx_eq, getI?_fill]
+    · rw [← hnodes]; exact List.Pairwise.filter _ hN
+    · intro k hk
+      rw [← hnodes] at hk
+      have := (List.mem_filter.mp hk).2
+      simpa using this
+  · -- no padding anywhere
+    have hgood : ∀ k ∈ nodes0, isFillKey k = false := by
+      intro k hk
+      rcases hM k hk with h1 | h1
+      · exact h1
+      · rw [h1] at hk; exact absurd hk hK
+    have hfalse : (List.range nodes0.length).filter (fun i => isFillKey (nodes0.getD i (0, 0))) = [] := by
+      apply filter_range_nil
+      intro i hi
+      rw [hgetD i hi]; exact hgood _ (List.getElem_mem hi)
+    have hnodes : nodes0.filter (fun k => !isFillKey k) = nodes0 := by
+      rw [List.filter_eq_self]
+      intro k hk; simp [hgood k hk]
+    rw [hfalse, hnodes]
+    simp only [List.foldl_nil]
+    refine ⟨?_, hN, hgood⟩
+    rw [List.map_map, List.map_map]
+    apply List.map_congr_left
+    intro f hf
+    have hfull : w - f.length = 0 := by
+      by_cases hlt : f.length < w
+      · exfalso; apply hK
+        refine (hmem K0).mpr ⟨f, hf, ?_⟩
+        unfold encVertsRow
+        apply List.mem_append_right
+        simp only [List.mem_replicate]; exact ⟨by omega, rfl⟩
+      · omega
+    simp only [Function.comp, List.map_map]
+    unfold encVertsRow
+    rw [hfull, List.replicate_zero, List.append_nil, List.replicate_zero, List.append_nil]
+    apply List.map_congr_left
+    intro k hk
+    exact (rank_spec nodes0 k (hreal f hf k hk)).2.1
+
+example : vertsDecode [encVertsRow 4 [(0, 0), (10, 0), (10, 10)], [(10, 0), (20, 0), (20, 10), (10, 10)]]
+    = ([(0, 0), (10, 0), (10, 10), (20, 0), (20, 10)], [[0, 1, 2, FILL], [1, 3, 4, 2]]) := by decide
+
+
 /-! ### longitude convention -/
 
 section Lon
